@@ -122,7 +122,10 @@ class SimEs(RequestContextHolder):
             w.wire_cancelled.append(entry)
             raise
         if fault is not None:
-            await _signal("on_request_exception")
+            # aiohttp usually signals the exception; in a corner case of client timeouts it signals the end of the request instead
+            # (elastic/rally#1860, which is why Rally listens to both) - every other request without a response takes that route
+            w.unanswered = getattr(w, "unanswered", 0) + 1
+            await _signal("on_request_exception" if w.unanswered % 2 else "on_request_end")
             entry.update(t_end=w.clock.now, pc_end=w.clock.perf_counter(), wire_fault=type(fault).__name__)
             w.wire_log.append(entry)
             fault.sim_entry = entry
